@@ -75,7 +75,7 @@ check(
 )
 check(
     "C14",
-    "Bounded-exhaustive, solver-driven: every history of <= 3 operations over a pool of 14 (serialize / parse / encode / decode, succeeding and failing, over models that share classes, use xsi:type lookups, wildcard namespace memos and user prefix maps) is applied to one shared XmlContext / NodeParser / EventGenerator / DictEncoder / DictDecoder and each call's outcome is compared with the same call on fresh instances. The history is a vector of symbolic selectors: CrossHair/z3 enumerate and prune it, nothing is value-symbolic (said so in the evidence).",
+    "Bounded-exhaustive, solver-driven: every history of <= 3 operations (quick: third operation from 16 state-observing ones; thorough <= 4) over a pool of 36 (serialize / parse / encode / decode, succeeding and failing, over models that share classes, xsi:type lookups, lookups without a target class, wildcard namespace memos under different wildcard modes, QName-valued enums under different prefix bindings, compound primitive choices, user prefix maps, and one ENVIRONMENT step: a module defining a second class for an already resolved qualified name is imported) is applied to one shared XmlContext / NodeParser / EventGenerator / DictEncoder / DictDecoder; each call's outcome is compared with the same call on fresh instances in the same interpreter and with the same call run alone in a pristine interpreter (one subprocess per operation). Every history runs in a forked child so that process-wide state cannot leak between histories. The history is a vector of symbolic selectors: CrossHair/z3 enumerate and prune it, nothing is value-symbolic (said so in the evidence).",
     _SEAM_NOTE + " Longer histories are outside the bound.",
     "solver-driven bounded-exhaustive enumeration of operation histories against the real code (selectors only)",
     "DESIGN.md §5 C14",
@@ -96,15 +96,15 @@ check(
 )
 check(
     "C07",
-    "NAMES AND REFERENCES ONLY - the larger half of the property (files written, modules import, classes instantiate) is NOT decided: rendering needs jinja2, which is absent. Decided, bounded-exhaustive and solver-driven (selectors): (1) every name of <= 3 symbols over a 14-symbol hostile alphabet, under every NameCase and two safe-prefix sets, renders through the real Filters.class_name/field_name/constant_name/module_name/package_name to a valid non-reserved identifier and safe_name terminates; (2) hostile name triples are placed as JSON keys (DictMapper) and as NCName-legal element/attribute/type/enumeration names of a tiny XSD (SchemaParser+SchemaMapper), the REAL ClassContainer.process() runs for every structure style x compound x unnest partition, and then no two fields of a class and no two classes of a module share a rendered name, every type reference resolves, DependenciesResolver orders every module, and only CodegenError escapes.",
+    "NAMES AND REFERENCES ONLY - the larger half of the property (files written, modules import, classes instantiate) is NOT decided: rendering needs jinja2, which is absent. Decided, bounded-exhaustive and solver-driven (selectors): (1) every name of <= 3 symbols over a 14-symbol hostile alphabet, under every NameCase and two safe-prefix sets, renders through the real Filters.class_name/field_name/constant_name/module_name/package_name to a valid non-reserved identifier and safe_name terminates; (2) hostile name triples are placed as JSON keys (DictMapper) and as NCName-legal element/attribute/type/enumeration names of a tiny XSD (SchemaParser+SchemaMapper), the REAL ClassContainer.process() runs for every structure style x compound x unnest partition, and then no two fields of a class and no two classes of a module share a rendered name, every type reference resolves, DependenciesResolver orders every module, and only CodegenError escapes; (3) sets of three schemas in three namespaces / files with same-named, case-colliding and reserved type names (import aliases) and all 64 reference graphs on three types (cluster designation) go through the same pipeline, and an independent reading of Python module scoping decides that per module every import (alias or name) and class is bound once, every reference (attribute types, compound choice types, extensions) rendered as class_name(alias or name) is bound to the class it means, and no compound field has two choices binding the same python type.",
     "Trusted: import-time shims for click/jinja2/toposort (analysis half only). Outside: everything that needs rendering; DTD/WSDL/XML-sample sources; names outside the pools.",
     "solver-driven bounded-exhaustive enumeration (selectors) of hostile names through the real naming kernel and the real analysis pipeline",
     "DESIGN.md §5 C07",
 )
 check(
     "C12",
-    "ORDERING KERNELS ONLY - byte-identical files, repeated runs and the CLI / config-file routes are NOT decided (no renderer, no click). Decided, bounded-exhaustive and solver-driven: the hash seed is turned into a choice - `set` in the globals of 12 codegen modules is a subclass whose iteration order is a permutation picked by 4 symbolic integers, and id() in xsdata.models.xsd returns distinct integers ordered by the same picks; for every dependency graph on 3 complex types (6 edge booleans; union-typed attribute; nested sequence/choice groups) rendered as an XSD and pushed through the REAL SchemaParser -> SchemaMapper -> ClassContainer.process -> DependenciesResolver, the package/module designation, class order, import order, attribute type priority and emitted restrictions (incl. renumbered sequence ids) must equal those under the identity permutation, per structure style.",
-    "Trusted: shims for click/jinja2/toposort; the assumption that C-level consumers of a set subclass bypass __iter__ only where order cannot matter. Outside: set literals/comprehensions, more than 3 classes, more than 4 independent picks, everything after the analysis half.",
+    "ORDERING KERNELS, REPEATED RUNS AND THE CONFIG LAYER - byte-identical FILES are not decided (no renderer) and the click layer is absent. Decided, bounded-exhaustive and solver-driven: the hash seed is turned into a choice - `set` in the globals of 12 codegen modules is a subclass whose iteration order is a permutation picked by 4 symbolic integers (sets of ints keep CPython's seed-independent order), and every id() call in xsdata (11 modules) returns distinct integers ordered by the same picks; for every dependency graph on 3 complex types (6 edge booleans; union-typed attribute; nested sequence/choice groups) rendered as an XSD and pushed through the REAL SchemaParser -> SchemaMapper -> ClassContainer.process -> DependenciesResolver, the package/module designation, class order, import order, attribute type priority and emitted restrictions (incl. renumbered sequence ids) must equal those under the identity permutation, per structure style (also with compound fields and unnest_classes, a repeating sequence holding a choice, anonymous types nested three deep, and sets of three schemas in three namespaces whose same-named classes need import aliases). Repeated runs: every history of 3 calls of the real ResourceTransformer.process over 3 schema files with the on-disk cache on/off must produce what an uncached fresh run produces. Config routes: for every pair of 9 generator options, a project file (GeneratorConfig.write -> read) with command-line flag values (falsy ones included) laid over it exactly as cli.generate does must equal the same options set through the API.",
+    "Trusted: shims for click/jinja2/toposort; the assumption that C-level consumers of a set subclass bypass __iter__ only where order cannot matter. Outside: set literals/comprehensions, more than 4 independent picks, everything after the analysis half (rendering), click's option parsing, a cached source whose content changes.",
     "solver-driven bounded-exhaustive enumeration of set-iteration permutations and dependency graphs through the real analysis pipeline",
     "DESIGN.md §5 C12",
 )
